@@ -73,6 +73,14 @@ func (c *Conversation) calcDHSharedSecret() *big.Int {
 }
 
 func (c *Conversation) generateEncryptedSignature(key *akeKeys) ([]byte, error) {
+	if c.ourCurrentKey == nil {
+		// The version can have been committed to at a moment when we had no
+		// key for it. Without a key there is nothing to sign with.
+		if err := c.setKeyMatchingVersion(); err != nil {
+			return nil, err
+		}
+	}
+
 	verifyData := appendAll(c.ake.ourPublicValue, c.ake.theirPublicValue, c.ourCurrentKey.PublicKey(), c.ake.keys.ourKeyID)
 
 	mb := sumHMAC(key.m1, verifyData, c.version)
